@@ -2822,6 +2822,13 @@ class Mailbox:
                 wait_start = time.monotonic()
                 self._maybe_extend_timeout(timeout_cm, extend=30.0)
                 async with append_imap_cmd.ready_and_okay(dst_mbox):
+                    # (while we waited a DELETE may have turned the
+                    # destination in to a `\Noselect` place holder)
+                    #
+                    if r"\Noselect" in dst_mbox.attributes:
+                        raise NoSuchMailbox(
+                            f"'{dst_mbox.name}' has been deleted"
+                        )
                     wait_duration = time.monotonic() - wait_start
                     if imap_cmd:
                         self.logger.debug(
